@@ -19,7 +19,11 @@ Theorems ==
   LET n == Len(text)
   IN \* the one-pass tables are the declarative reference
      /\ Len(tab) = n + 1 /\ \A k \in 0..n : tab[k + 1] = PosB(text, k)
-     /\ \A k \in 0..n : \A l \in 0..(n + 1), c \in 0..1 : PosOKT(text, tab, k, l, c) = PosOK(text, k, l, c)
+     /\ \A k \in 0..n : IdxPosT(text, tab, k) = IdxPos(text, k)
+     \* index -> position never decreases, and a non-empty byte range of whole characters never
+     \* becomes an empty position range
+     /\ \A j, k \in 0..n : j < k => /\ ~LexLess(IdxPosT(text, tab, k), IdxPosT(text, tab, j))
+                                      /\ (IdxPosT(text, tab, j) = IdxPosT(text, tab, k) => (k = j + 1 /\ MidCRLF(text, j)))
      \* the reference: positions of character boundaries are distinct, increasing, and round-trip
      /\ InjectiveT(text, tab) /\ MonotoneT(text, tab) /\ RoundTripT(text, tab)
      \* index -> position: both variants of the walk report an acceptable position for every boundary
